@@ -220,7 +220,10 @@ def _exact_case(draw):
             e = gen.no_leafless(draw(gen.any_element(kind, 'int64', False, False)))
             units.append(_map_units(kind, e, s, offx, offy))
     kx, ky = draw(st.integers(-2, 8)), draw(st.integers(-2, 8))
-    ox, oy = draw(st.integers(-1000, 1000)), draw(st.integers(-1000, 1000))
+    # origins far from zero relative to the extent (a tolerance-based "is the extent zero?" test would misfire there)
+    big = st.sampled_from([0, 2 ** 20, -2 ** 20, 2 ** 30, 2 ** 26 + 3])
+    ox = draw(st.integers(-1000, 1000)) + draw(big)
+    oy = draw(st.integers(-1000, 1000)) + draw(big)
     cx, cy = 2.0 ** kx, 2.0 ** ky
     els = [_embed(kind, e, ox, oy, cx, cy) for e in units]
     tb = [float(ox), float(oy), ox + side * cx, oy + side * cy]
